@@ -288,6 +288,107 @@ def cropIntOld (g : GeoBox) (k : Int) : GeoBox := crop g (.one (.slc (some k) (s
 theorem crop_int_minus_one_old_cex : (cropIntOld ⟨10, 20, Aff.id, 0⟩ (-1)).ny = -9 := by
   decide +kernel
 
+/-! ### cropping by a region (Geometry / BoundingBox / GeoBox used as an index) -/
+
+/-- `gbox[region]` is a whole-pixel window of the parent (pixel `(i,j)` of the view is pixel
+`(i+L, j+B)` of the parent, `L, B ≥ 0`, same crs) that contains every region vertex lying inside
+the parent's pixel rectangle. -/
+theorem crop_region_covers (g g' : GeoBox) (pts : List Pt) (h : cropRegionPix g pts = .ok g')
+    (p : Pt) (hp : p ∈ pts) (hx : 0 ≤ p.1 ∧ p.1 ≤ g.nx) (hy : 0 ≤ p.2 ∧ p.2 ≤ g.ny) :
+    ∃ L B : Int, 0 ≤ L ∧ 0 ≤ B ∧ g'.crs = g.crs ∧ 1 ≤ g'.nx ∧ 1 ≤ g'.ny ∧
+      (∀ q : Pt, pix2wld g' q = pix2wld g (q.1 + L, q.2 + B)) ∧
+      (L : Rat) ≤ p.1 ∧ p.1 ≤ (L : Rat) + g'.nx ∧ (B : Rat) ≤ p.2 ∧ p.2 ≤ (B : Rat) + g'.ny := by
+  cases pts with
+  | nil => cases hp
+  | cons p0 ps =>
+    simp only [cropRegionPix, Except.ok.injEq] at h
+    subst h
+    have hxm : p.1 ∈ (p0 :: ps).map (·.1) := List.mem_map_of_mem hp
+    have hym : p.2 ∈ (p0 :: ps).map (·.2) := List.mem_map_of_mem hp
+    generalize hxs : (p0 :: ps).map (·.1) = xs at hxm ⊢
+    generalize hys : (p0 :: ps).map (·.2) = ys at hym ⊢
+    have lo : ∀ (v : Rat) (l : List Rat), v ∈ l → 0 ≤ v → ((max (C17.minL 0 l).floor 0 : Int) : Rat) ≤ v := by
+      intro v l hv h0
+      rw [Int.cast_max]
+      apply max_le _ (by simpa using h0)
+      exact le_trans (Rat.floor_le _) (minL_le 0 l v hv)
+    have hi : ∀ (v : Rat) (l : List Rat) (n : Int), v ∈ l → v ≤ n → v ≤ ((min (C17.maxL 0 l).ceil n : Int) : Rat) := by
+      intro v l n hv hn
+      rw [Int.cast_min]
+      exact le_min (le_trans (le_maxL 0 l v hv) Rat.le_ceil) hn
+    have wr : ∀ (n a : Int), 0 ≤ a → wrapNeg n a = a := by intro n a ha; simp [wrapNeg, ha]
+    have hL : (0 : Int) ≤ max (C17.minL 0 xs).floor 0 := le_max_right _ _
+    have hB : (0 : Int) ≤ max (C17.minL 0 ys).floor 0 := le_max_right _ _
+    refine ⟨max (C17.minL 0 xs).floor 0, max (C17.minL 0 ys).floor 0, hL, hB, rfl, ?_, ?_, ?_,
+      lo _ _ hxm hx.1, ?_, lo _ _ hym hy.1, ?_⟩
+    · simp only [crop, normSlice]; rw [wr _ _ hL, wr _ _ (by omega)]; omega
+    · simp only [crop, normSlice]; rw [wr _ _ hB, wr _ _ (by omega)]; omega
+    · intro q
+      rw [(crop_pixel g _ _ q).1]
+      simp only [normSlice]; rw [wr _ _ hL, wr _ _ hB]
+    · have h1 := hi _ _ g.nx hxm hx.2
+      simp only [crop, normSlice]; rw [wr _ _ hL, wr _ _ (by omega)]
+      have : min (C17.maxL 0 xs).ceil g.nx ≤ max (C17.minL 0 xs).floor 0 +
+          (max (C17.minL 0 xs).floor 0 + max 1 (min (C17.maxL 0 xs).ceil g.nx - max (C17.minL 0 xs).floor 0)
+            - max (C17.minL 0 xs).floor 0) := by omega
+      have hc : ((min (C17.maxL 0 xs).ceil g.nx : Int) : Rat) ≤ _ := Int.cast_le.mpr this
+      push_cast at hc h1 ⊢
+      linarith
+    · have h1 := hi _ _ g.ny hym hy.2
+      simp only [crop, normSlice]; rw [wr _ _ hB, wr _ _ (by omega)]
+      have : min (C17.maxL 0 ys).ceil g.ny ≤ max (C17.minL 0 ys).floor 0 +
+          (max (C17.minL 0 ys).floor 0 + max 1 (min (C17.maxL 0 ys).ceil g.ny - max (C17.minL 0 ys).floor 0)
+            - max (C17.minL 0 ys).floor 0) := by omega
+      have hc : ((min (C17.maxL 0 ys).ceil g.ny : Int) : Rat) ≤ _ := Int.cast_le.mpr this
+      push_cast at hc h1 ⊢
+      linarith
+
+/-- `g[g[roi]] = g[roi]`: indexing a geobox with one of its own (non-empty, in-range) windows
+returns that window — for **every** invertible affine (rotated, sheared, mirrored) and every
+CRS.  True in exact arithmetic; in doubles the projected corners land at `k ± 1e-12` pixels
+and the outward rounding adds a pixel on most arbitrary float grids (reported finding
+`window-of-self-grows-by-float-noise`, judged by the harness' float stream).  For a CRS-less
+parent the code takes the window's (CRS-less) footprint for *pixel* coordinates, hence
+`g.crs ≠ 0`. -/
+theorem crop_window_of_self (g : GeoBox) (hdet : g.A.det ≠ 0) (hcrs : g.crs ≠ 0)
+    (x0 x1 y0 y1 : Int) (hx : 0 ≤ x0 ∧ x0 < x1 ∧ x1 ≤ g.nx) (hy : 0 ≤ y0 ∧ y0 < y1 ∧ y1 ≤ g.ny) :
+    cropGeoBox g (crop g (.two (.slc (some y0) (some y1)) (.slc (some x0) (some x1))))
+      = .ok (crop g (.two (.slc (some y0) (some y1)) (.slc (some x0) (some x1)))) := by
+  have wr : ∀ (n a : Int), 0 ≤ a → wrapNeg n a = a := by intro n a ha; simp [wrapNeg, ha]
+  have hw : crop g (.two (.slc (some y0) (some y1)) (.slc (some x0) (some x1)))
+      = ⟨y1 - y0, x1 - x0, g.A * Aff.translation (x0 : Rat) (y0 : Rat), g.crs⟩ := by
+    simp only [crop, normSlice]
+    rw [wr _ _ hx.1, wr _ _ hy.1, wr _ x1 (by omega), wr _ y1 (by omega)]
+  rw [hw]
+  have hc : ((g.crs == 0) = false) := by simp [hcrs]
+  have hap : ∀ c : Pt, g.A.inv.apply ((g.A * Aff.translation (x0 : Rat) (y0 : Rat)).apply c)
+      = (c.1 + x0, c.2 + y0) := by
+    intro c
+    rw [Aff.apply_mul, Aff.inv_apply_apply g.A hdet, Aff.apply_translation]
+  simp only [cropGeoBox, cropRegion, hc, Aff.inv?, hdet, if_false, bind, Except.bind, extent, corners,
+    List.map_cons, List.map_nil, List.cons_append, List.nil_append, hap, Bool.false_eq_true]
+  simp only [cropRegionPix, List.map_cons, List.map_nil, C17.minL, C17.maxL, List.foldl_cons, List.foldl_nil,
+    zero_add]
+  have ex : (0 : Rat) ≤ ((x1 - x0 : Int) : Rat) := by exact_mod_cast (by omega : (0 : Int) ≤ x1 - x0)
+  have ey : (0 : Rat) ≤ ((y1 - y0 : Int) : Rat) := by exact_mod_cast (by omega : (0 : Int) ≤ y1 - y0)
+  have hbx : (x0 : Rat) ≤ ((x1 - x0 : Int) : Rat) + x0 := by linarith
+  have hby : (y0 : Rat) ≤ ((y1 - y0 : Int) : Rat) + y0 := by linarith
+  simp only [min_self, max_self, min_eq_left hbx, max_eq_left hbx, max_eq_right hbx,
+    min_eq_left hby, max_eq_left hby, max_eq_right hby]
+  have bx : ((x1 - x0 : Int) : Rat) + x0 = ((x1 : Int) : Rat) := by push_cast; ring
+  have by' : ((y1 - y0 : Int) : Rat) + y0 = ((y1 : Int) : Rat) := by push_cast; ring
+  rw [bx, by', floor_intCast', floor_intCast', ceil_intCast', ceil_intCast']
+  have e1 : max x0 0 = x0 := max_eq_left hx.1
+  have e2 : max y0 0 = y0 := max_eq_left hy.1
+  have e3 : min x1 g.nx = x1 := min_eq_left hx.2.2
+  have e4 : min y1 g.ny = y1 := min_eq_left hy.2.2
+  have e5 : max 1 (x1 - x0) = x1 - x0 := max_eq_right (by omega)
+  have e6 : max 1 (y1 - y0) = y1 - y0 := max_eq_right (by omega)
+  rw [e1, e2, e3, e4, e5, e6]
+  have e7 : x0 + (x1 - x0) = x1 := by omega
+  have e8 : y0 + (y1 - y0) = y1 := by omega
+  rw [e7, e8, hw]
+
 theorem pad_pixel (g : GeoBox) (padx : Int) (pady : Option Int) (p : Pt) :
     pix2wld (pad g padx pady) p = pix2wld g (p.1 - padx, p.2 - ((pady.getD padx : Int) : Rat)) ∧
     (pad g padx pady).ny = g.ny + 2 * pady.getD padx ∧ (pad g padx pady).nx = g.nx + 2 * padx ∧
